@@ -143,7 +143,7 @@ func (b *box) readInnerBox() (inner box, next bool, err error) {
 func (b *box) readUint16() (uint16, error) {
 	buf, err := b.Peek(2)
 	if err != nil {
-		return 0, errors.Wrap(ErrBufLength, "readUint16")
+		return 0, errReadUint16
 	}
 	_, err = b.Discard(2)
 	return bmffEndian.Uint16(buf[:2]), err
@@ -153,7 +153,7 @@ func (b *box) readUint16() (uint16, error) {
 func (b *box) readUUID() (u meta.UUID, err error) {
 	buf, err := b.Peek(16)
 	if err != nil {
-		return u, errors.Wrap(ErrBufLength, "readUUID")
+		return u, errReadUUID
 	}
 	if err = u.UnmarshalBinary(buf); err != nil {
 		return u, err
@@ -205,6 +205,12 @@ type flags uint32
 // flags. It is built once: a container may hold any number of such boxes (their
 // errors are logged and skipped), and a wrapped error records a stack trace.
 var errReadFlags = errors.Wrap(ErrBufLength, "readFlags")
+
+// The same holds for the other fields read at the start of a box.
+var (
+	errReadUint16 = errors.Wrap(ErrBufLength, "readUint16")
+	errReadUUID   = errors.Wrap(ErrBufLength, "readUUID")
+)
 
 // readFlags reads the Flags from a FullBox header.
 func (b *box) readFlags() error {
